@@ -68,6 +68,21 @@ theorem from_ok (s : Slice) (n : Nat) (h : n ≤ s.bytes.length) :
   unfold Slice.from; rw [sliceFrom_ok _ _ h]; rfl
 theorem subR_ok (a b : Nat) (h : b ≤ a) : subR a b = .ok (a - b) := by simp [subR, h]
 
+/-- `if len > remaining { 0 } else { remaining - len }` is truncated subtraction, however it is spelled -/
+theorem newRem1 (a n : Nat) : (if decide (a > n) = true then (R.ok 0 : R Nat) else subR n a) = R.ok (n - a) := by
+  by_cases h : a > n
+  · simp only [h, decide_true, if_true]; congr 1; omega
+  · simp only [h, decide_false, Bool.false_eq_true, if_false]; exact subR_ok n a (by omega)
+theorem newRem2 (a n : Nat) :
+    (if decide (a > n) = true then (R.ok 0 : R Nat) else (subR n a >>= fun t => R.ok t)) = R.ok (n - a) := by
+  by_cases h : a > n
+  · simp only [h, decide_true, if_true]; congr 1; omega
+  · simp only [h, decide_false, Bool.false_eq_true, if_false, subR_ok n a (by omega : a ≤ n), R.ok_bind]
+theorem newRem3 (a n : Nat) : (if a > n then (R.ok 0 : R Nat) else subR n a) = R.ok (n - a) := by
+  by_cases h : a > n
+  · simp only [h, if_true]; congr 1; omega
+  · simp only [h, if_false]; exact subR_ok n a (by omega)
+
 /-- run a list of calls through the next layer, concatenating what that layer emits in turn -/
 def foldCalls {σ C D : Type} (f : σ → C → R (σ × List D)) (s : σ) : List C → R (σ × List D)
   | [] => .ok (s, [])
@@ -147,24 +162,17 @@ theorem bufS_continue (fz : Bool) (cfg : Cfg) (hs : cfg.sectionSyntax = true) (s
   cases hr : s.remaining with
   | none => simp [concB, stateOf, hr]
   | some n =>
-    simp only [concB, stateOf, hr, Slice.len]
-    by_cases hc : d.bytes.length > n
-    · have h1 : n ≤ d.bytes.length := by omega
-      simp only [hc, decide_true, if_true, R.ok_bind, R.pure_eq, BEq.rfl, upto_ok _ _ h1, sliceTo_ok _ _ h1]
+    simp only [concB, stateOf, hr, R.pure_eq, newRem1, newRem2, newRem3, R.ok_bind]
+    simp only [show d.len = d.bytes.length from rfl]
+    by_cases h0 : n - d.bytes.length = 0
+    · have h2 : n ≤ d.bytes.length := by omega
+      simp only [h0, BEq.rfl, if_true, upto_ok _ _ h2, sliceTo_ok _ _ h2, R.ok_bind]
       simp only [Slice.upto, Slice.from, Slice.ofVec, Stmt.headerNew, Stmt.tshNew, hs, if_true, COMMON,
         rmap_bind, R.bind_assoc, R.ok_bind, R.pure_eq, rmap_ok]
       rfl
-    · have h1 : d.bytes.length ≤ n := by omega
-      simp only [hc, decide_false, if_false, Bool.false_eq_true, R.ok_bind, R.pure_eq, subR_ok _ _ h1]
-      by_cases h0 : n - d.bytes.length = 0
-      · have h2 : n ≤ d.bytes.length := by omega
-        simp only [h0, BEq.rfl, if_true, upto_ok _ _ h2, sliceTo_ok _ _ h2, R.ok_bind]
-        simp only [Slice.upto, Slice.from, Slice.ofVec, Stmt.headerNew, Stmt.tshNew, hs, if_true, COMMON,
-          rmap_bind, R.bind_assoc, R.ok_bind, R.pure_eq, rmap_ok]
-        rfl
-      · have hb : (n - d.bytes.length == 0) = false := by simp [h0]
-        simp only [hb, if_false, Bool.false_eq_true, R.ok_bind, rmap_ok, R.pure_eq]
-        rfl
+    · have hb : (n - d.bytes.length == 0) = false := by simp [h0]
+      simp only [hb, if_false, Bool.false_eq_true, R.ok_bind, rmap_ok, R.pure_eq]
+      rfl
 
 theorem bufC_start (fz : Bool) (s : St) (h : Header) (d : Slice) (off : Nat) (hd : d.src = some off) :
     bufCStep fz (concBC s) (.start_compact_section h d)
@@ -189,26 +197,17 @@ theorem bufC_continue (fz : Bool) (cfg : Cfg) (hs : cfg.sectionSyntax = false) (
   cases hr : s.remaining with
   | none => simp [concBC, stateOf, hr]
   | some n =>
-    simp only [concBC, stateOf, hr, Slice.len]
-    by_cases hc : d.bytes.length > n
-    · have h1 : n ≤ d.bytes.length := by omega
-      simp only [hc, decide_true, if_true, R.ok_bind, R.pure_eq, BEq.rfl, upto_ok _ _ h1, sliceTo_ok _ _ h1]
+    simp only [concBC, stateOf, hr, R.pure_eq, newRem1, newRem2, newRem3, R.ok_bind]
+    simp only [show d.len = d.bytes.length from rfl]
+    by_cases h0 : n - d.bytes.length = 0
+    · have h2 : n ≤ d.bytes.length := by omega
+      simp only [h0, BEq.rfl, if_true, upto_ok _ _ h2, sliceTo_ok _ _ h2, R.ok_bind]
       simp only [Slice.upto, Slice.from, Slice.ofVec, Stmt.headerNew, Stmt.tshNew, hs, if_false, Bool.false_eq_true, COMMON,
         rmap_bind, R.bind_assoc, R.ok_bind, R.pure_eq, rmap_ok]
       rfl
-    · have h1 : d.bytes.length ≤ n := by omega
-      simp only [hc, decide_false, if_false, Bool.false_eq_true, R.ok_bind, R.pure_eq, subR_ok _ _ h1]
-      by_cases h0 : n - d.bytes.length = 0
-      · have h2 : n ≤ d.bytes.length := by omega
-        simp only [h0, BEq.rfl, if_true, upto_ok _ _ h2, sliceTo_ok _ _ h2, R.ok_bind]
-        simp only [Slice.upto, Slice.from, Slice.ofVec, Stmt.headerNew, Stmt.tshNew, hs, if_false, Bool.false_eq_true, COMMON,
-          rmap_bind, R.bind_assoc, R.ok_bind, R.pure_eq, rmap_ok]
-        rfl
-      · have hb : (n - d.bytes.length == 0) = false := by simp [h0]
-        simp only [hb, if_false, Bool.false_eq_true, R.ok_bind, rmap_ok, R.pure_eq]
-        rfl
-
-/-! ### frame: the buffering layer of the model touches `buf` and `remaining` only -/
+    · have hb : (n - d.bytes.length == 0) = false := by simp [h0]
+      simp only [hb, if_false, Bool.false_eq_true, R.ok_bind, rmap_ok, R.pure_eq]
+      rfl
 
 theorem bufStart_setB (s : St) (h : Header) (data : Bytes) (off : Nat) :
     Psi.bufStart s h data off = rmap (fun r => (setB s r.1, r.2)) (Psi.bufStart s h data off) := by
